@@ -7,7 +7,7 @@ CONSTANTS
   NodeHead = 1
   PartBytes = 1
   CarBytes = 4
-  KeySet = {1, 2, 3, 4, 5, 6, 7}
+  KeySet = {1, 2, 3, 4, 5}
   MaxCount = 2
   FullCheck = TRUE
   Probe = "none"
